@@ -1,16 +1,19 @@
 (* Case decoder / result encoder for property C08 (same language: harness/src/c08.rs,
    tools/props/c08.py).
      (8 op ty (n0 n1) rows cols (x ...))
-        op 1 = Cholesky, 2 = LDL^T, 3 = QR ; ty 0 = Rat, 1 = Fp, 2 = StrictRat ; n0 n1 = dimension
+        op 1 = Cholesky, 2 = LDL^T, 3 = QR ; ty 0 = Rat, 1 = Fp, 2 = StrictRat, 3 = StrictRat0 ; n0 n1 = dimension
         names of the tensor forms ; rows, cols >= 1 ; x ... = rows*cols entries, row-major.
         ty 2 (StrictRat, harness/src/c08/strict.rs): entries encoded as for Rat, same values as Rat,
         but on the implementation side `/` PANICS on a zero divisor (as ordinary exact rational /
-        integer types do).  The model runs the SAME total dictionary Qops for tag 2: by
-        C08_ldlt_rejects / C08_ldlt_absent_iff_zero_pivot a zero pivot is answered None and by
-        C08_cholesky_rejects* a non-positive pivot is, and the property says "never a panic" for
-        these inputs — so the code must reach its absence decision before any division by the
-        pivot, and the results for tag 2 are those for tag 0.  An implementation panic is answered
-        `(2)` by the harness, which no model result equals.
+        integer types do).  ty 3 (StrictRat0): the same, and the sqrt stand-in is x^3 + 7x (zero at
+        zero, positive on positive arguments, like the true square root; dictionary Qops0).
+        For tags 2 and 3 the model runs the DIVISION-INSTRUMENTED transcriptions
+        (Model/DecompDiv.v: cholesky_i / ldlt_i / qr_i with strict_div): it PREDICTS value /
+        absence / panic; a panic is the result `(2)` on both sides (the harness answers `(2)` when
+        an entry point panics).  Theorems (Properties/C08.v): Cholesky and LDL^T never predict a
+        panic (C08_cholesky_never_divides_by_zero, C08_ldlt_never_divides_by_zero); QR predicts
+        a panic exactly when a reflection meets u with length `== zero` (C08_qr_panics_exactly)
+        — with tag 2 never (sqrt >= 23), with tag 3 e.g. on a zero first column.
    Result (absent `()` or present):
         Cholesky:  ((shape (l ...)))                      shape = ((n0 rows) (n1 cols))
         LDL^T:     ((shape (l ...) (d ...)))
@@ -25,12 +28,14 @@
         predicts exactly over the rationals: Cholesky present <-> square and every LDL^T pivot
         positive; LDL^T present <-> the exact LDL^T is; QR present <-> rows >= cols.
    Outside the language (bad case, both sides): square Rat / StrictRat Cholesky of more than 4 rows and
-   Rat / StrictRat QR needing more than one reflection — the polynomial sqrt stand-in makes the exact rationals explode (a
+   Rat / StrictRat QR needing more than one reflection (exception, tag 3 only: two reflections when rows <= 4, every entry
+   is written `(n 1)` with |n| <= 2 and column 0 is zero below the diagonal: cheap) — the polynomial sqrt stand-in makes the exact rationals explode (a
    3x2 QR takes the extracted model more than a minute); Fp has no such limit.
    `sqrt` is the fixed polynomial of Model/Num.v on both sides: the factors are compared exactly
    as computation skeletons (same field operations, same sqrt calls, same comparisons). *)
 From Coq Require Import List ZArith NArith QArith Bool.
-From EasyML Require Import Base.Sx Model.Num Model.LinAlg Model.Decomp Run.RunC07.
+From EasyML Require Import Base.Sx Model.Num Model.LinAlg Model.Decomp Model.DivOutcome
+  Model.DecompDiv Run.RunC07.
 Import ListNotations.
 
 Definition c08_run {R} (ops : numops R) (op : Z) (names : nat * nat) (m : mat (R := R)) : sx :=
@@ -42,6 +47,39 @@ Definition c08_run {R} (ops : numops R) (op : Z) (names : nat * nat) (m : mat (R
   | 2%Z => sopt (fun ld => SL [shape (fst ld); data (fst ld); data (snd ld)]) (ldlt ops m)
   | 3%Z => sopt (fun qr => SL [shape (fst qr); data (fst qr); shape (snd qr); data (snd qr)])
                 (qr ops m)
+  | _ => bad_case
+  end.
+
+(* ty 3, QR with TWO reflections is inside the language only for cheap inputs: at most 4 rows,
+   every entry written `(n 1)` with |n| <= 2, column 0 zero below the diagonal *)
+Definition c08_sparse_small (rows cols : nat) (data : sx) : bool :=
+  match data with
+  | SL l =>
+      forallb (fun s => match s with
+                        | SL [SZ n; SZ 1%Z] => (Z.abs n <=? 2)%Z
+                        | _ => false
+                        end) l
+      && forallb (fun i => match nth (i * cols) l (SL []) with
+                           | SL [SZ 0%Z; SZ 1%Z] => true
+                           | _ => false
+                           end) (seq 1 (rows - 1))
+  | _ => false
+  end.
+
+(* ty 2 / ty 3: the division-instrumented transcriptions (Model/DecompDiv.v) with the STRICT
+   division: a division by a divisor `== zero` is the outcome Panic, encoded `(2)`; a value is
+   encoded exactly as by c08_run (by C08_*_erase the value IS the one of the models above) *)
+Definition c08_run_strict {R} (ops : numops R) (op : Z) (names : nat * nat) (m : mat (R := R)) : sx :=
+  let shape := fun x : mat =>
+    SL [SL [snat (fst names); snat (mrows x)]; SL [snat (snd names); snat (mcols x)]] in
+  let data := fun x : mat => slist (nenc ops) (concat x) in
+  let pd := strict_div ops in
+  match op with
+  | 1%Z => sx_or_panic (sopt (fun l => SL [shape l; data l])) (cholesky_i ops pd m)
+  | 2%Z => sx_or_panic (sopt (fun ld => SL [shape (fst ld); data (fst ld); data (snd ld)]))
+                       (ldlt_i ops pd m)
+  | 3%Z => sx_or_panic (sopt (fun qr => SL [shape (fst qr); data (fst qr); shape (snd qr); data (snd qr)]))
+                       (qr_i ops pd m)
   | _ => bad_case
   end.
 
@@ -75,11 +113,22 @@ Definition run_c08 (args : list sx) : sx :=
       match dpair dnat dnat names, dnat rows, dnat cols with
       | Some names, Some rows, Some cols =>
           if Nat.eqb rows 0 || Nat.eqb cols 0 || Nat.eqb (fst names) (snd names) then bad_case else
-          (* tag 2 = StrictRat: the rationals again (the model's division is total) *)
-          let ty := if Z.eqb ty 2 then 0%Z else ty in
-          if Z.eqb ty 0 && ((Z.eqb op 1 && Nat.ltb 4 rows && Nat.eqb rows cols) ||
-                            (Z.eqb op 3 && Nat.leb cols rows && Nat.ltb 1 (Nat.min (rows - 1) cols)))
+          (* tags 0, 2, 3 are rationals: the same size limits *)
+          if (Z.eqb ty 0 || Z.eqb ty 2 || Z.eqb ty 3)
+             && ((Z.eqb op 1 && Nat.ltb 4 rows && Nat.eqb rows cols) ||
+                 (Z.eqb op 3 && Nat.leb cols rows && Nat.ltb 1 (Nat.min (rows - 1) cols)
+                  && negb (Z.eqb ty 3 && Nat.eqb (Nat.min (rows - 1) cols) 2 && Nat.leb rows 4
+                           && c08_sparse_small rows cols data)))
           then bad_case else
+          (* tag 2 = StrictRat, tag 3 = StrictRat0: instrumented model, strict division *)
+          if Z.eqb ty 2 || Z.eqb ty 3 then
+            let ops := if Z.eqb ty 2 then Qops else Qops0 in
+            match dlist (ndec ops) data with
+            | Some d => if Nat.eqb (length d) (rows * cols)
+                        then c08_run_strict ops op names (chunk rows cols d) else bad_case
+            | None => bad_case
+            end
+          else
           with_ty ty (fun R ops =>
             match dlist (ndec ops) data with
             | Some d => if Nat.eqb (length d) (rows * cols)
